@@ -17,7 +17,7 @@ from pyvc import sym
 from pyvc.sym import lift, SComplex
 from pyvc.interp import PyRaise
 from pyvc.oblig import obligation, verify, bounded, Goal, merge, Inapplicable
-from .common import stable_rng, quick
+from .common import stable_rng, quick, Frame
 
 LEVEL = "proof"
 EXPLANATION = ("Histories: every sequence of <=3 mutators from {randomize(split A), randomize(split B with the same antenna totals), "
@@ -196,6 +196,38 @@ def _one_history(seq, ext):
         for i, op in enumerate(seq):
             _apply(c, it, o, g, op, draws, ext, str(i + 1))
             goals += _view_goals(c, it, o, g, "randA>" + ">".join(seq[:i + 1]), ext)
+        return goals
+    return verify(body, check_side=False, timeout_ms=60000)
+
+
+@obligation("views/rejected_reinitialisation_is_atomic", params=[{"ext": e} for e in (False, True)], timeout=300,
+            desc="exceptional postcondition: init_from_channel_matrix with inconsistent arguments (matrix shape not matching the antenna "
+                 "sums; K different from the number of entries of Nr/Nt) raises ValueError and leaves the object as it was - all views still "
+                 "agree with sqrt(path loss) * raw for the OLD split, also after a later set_pathloss")
+def ob_rejected_init(ext):
+    def body(c, it):
+        draws = []
+        _install_models(c, it, draws)
+        c.axioms_on = False
+        o, g = _new(c, it, ext)
+        _apply(c, it, o, g, "randA", draws, ext, "0")
+        _apply(c, it, o, g, "pl1", draws, ext, "1")
+        goals = _view_goals(c, it, o, g, "randA>pl1", ext)
+        Nr, Nt = SPLIT_A
+        tot_r, tot_t = int(Nr.sum()), int(Nt.sum()) + (1 if ext else 0)
+        bad = [("matrix with one row too many", _cmat(c, "B0", tot_r + 1, tot_t), Nr.copy(), Nt.copy(), 2),
+               ("K = 3 with two entries in Nr/Nt", _cmat(c, "B1", tot_r, tot_t), Nr.copy(), Nt.copy(), 3),
+               ("K = 1 with two entries in Nr/Nt", _cmat(c, "B2", tot_r, tot_t), Nr.copy(), Nt.copy(), 1)]
+        for label, M, a, b, K in bad:
+            args = [M, a, b, K] + ([1] if ext else [])
+            try:
+                it.call(it.getattr(o, "init_from_channel_matrix"), args)
+                goals.append(Goal("%s: rejected" % label, False))
+            except PyRaise as pr:
+                goals.append(Goal("%s: ValueError" % label, isinstance(pr.exc, ValueError)))
+            goals += _view_goals(c, it, o, g, "after rejected init (%s)" % label, ext)
+        _apply(c, it, o, g, "pl2", draws, ext, "9")
+        goals += _view_goals(c, it, o, g, "rejected inits > pl2", ext)
         return goals
     return verify(body, check_side=False, timeout_ms=60000)
 
@@ -450,11 +482,15 @@ def ob_native():
                     xe = np.empty(len(NtE), dtype=object)
                     for e in range(len(NtE)):
                         xe[e] = rr.randn(NtE[e], 3) + 1j * rr.randn(NtE[e], 3)
+                    fr = Frame(data=data, ext_data=xe)
                     out = o.corrupt_data(data, xe)
                     xs = np.vstack(list(data) + list(xe))
                 else:
+                    fr = Frame(data=data)
                     out = o.corrupt_data(data)
                     xs = np.vstack(list(data))
+                if fr.changed():
+                    return {"corrupt_data frame": fr.changed()}
                 y = o.big_H @ xs
                 if g["nv"] is not None:
                     if o.last_noise is None or o.last_noise.shape != y.shape:
